@@ -675,3 +675,23 @@ def conc_test(uni, rng, idx, nthreads=3, nops=3, nslots=4, race=False, reopen=No
     if race:
         t["norecord"] = True
     return t
+
+
+def index_order_tests(maxlen, field="A", base=4, nvals=4):
+    """C02 / FieldIndex: every insertion order of up to maxlen values over nvals values (ties included), so that
+    every index content of FieldIndex.tla is built through the public API in every order the in-place
+    shifting depends on; the sweep then tries every operator x probe on it."""
+    import itertools
+    out = []
+    idx = 0
+    for n in range(1, maxlen + 1):
+        for seq in itertools.product(range(nvals), repeat=n):
+            ops = [{"op": "put", "slot": i + 1, "o": {"K": 6 + i, field: base + v, "V": 2}} for i, v in enumerate(seq)]
+            # one update that moves an entry inside the index and one delete, then the final sweep
+            if n >= 2:
+                ops.append({"op": "obs"})
+                ops.append({"op": "put", "slot": 1, "o": {"K": 6, field: base + (seq[0] + 1) % nvals, "V": 2}})
+                ops.append({"op": "del", "slot": n})
+            out.append({"id": "fi%d" % idx, "cfg": make_cfg(idx % 2 == 1, False, idx // 2), "ops": ops, "fields": [field]})
+            idx += 1
+    return out
